@@ -585,7 +585,8 @@ class _VersionIndependentUnmarshaller:
             else:
                 co_varnames = tuple()
 
-            if self.version_tuple >= (2, 0):
+            if self.version_tuple >= (2, 1):
+                # Free and cell variables came with nested scopes in 2.1
                 co_freevars = self.r_object(bytes_for_s=bytes_for_s)
                 co_cellvars = self.r_object(bytes_for_s=bytes_for_s)
 
